@@ -33,15 +33,22 @@ func init() {
 // ---- mock connection (implements the pool's unexported conn interface) ----
 
 type mconn struct {
-	idx   int
-	alive bool
-	seqno uint32
-	rtt   time.Duration
+	idx    int
+	alive  bool
+	seqno  uint32
+	seqno2 uint32 // what MasterHead() answers from its second call on: a head that rises while a refresh runs
+	reads  int
+	rtt    time.Duration
 }
 
 func (m *mconn) ID() int { return m.idx }
 func (m *mconn) MasterHead() ton.BlockIDExt {
-	return ton.BlockIDExt{BlockID: ton.BlockID{Workchain: -1, Seqno: m.seqno}}
+	m.reads++
+	sq := m.seqno
+	if m.reads > 1 {
+		sq = m.seqno2
+	}
+	return ton.BlockIDExt{BlockID: ton.BlockID{Workchain: -1, Seqno: sq}}
 }
 func (m *mconn) SetMasterHead(ton.BlockIDExt)         {}
 func (m *mconn) IsOK() bool                           { return m.alive }
@@ -54,12 +61,26 @@ func (m *mconn) Status() pool.ConnStatus              { return pool.ConnStatus{}
 var _ pool.VerifConn = &mconn{}
 
 type mc struct {
-	alive bool
-	seqno uint32
-	rtt   int64
+	alive  bool
+	seqno  uint32
+	rtt    int64
+	rising bool   // the head rises to seqno2 between the two reads of updateBest
+	seqno2 uint32 // only if rising
 }
 
-func mcSx(c mc) sx.V { return sx.L(sx.B(c.alive), sx.N(uint64(c.seqno)), sx.Z(c.rtt)) }
+func (c mc) second() uint32 {
+	if c.rising {
+		return c.seqno2
+	}
+	return c.seqno
+}
+
+func mcSx(c mc) sx.V {
+	if c.rising {
+		return sx.L(sx.B(c.alive), sx.N(uint64(c.seqno)), sx.N(uint64(c.seqno2)), sx.Z(c.rtt))
+	}
+	return sx.L(sx.B(c.alive), sx.N(uint64(c.seqno)), sx.Z(c.rtt))
+}
 
 func mcsSx(cs []mc) sx.V {
 	vs := make([]sx.V, len(cs))
@@ -82,7 +103,7 @@ var stratNames = []pool.Strategy{pool.BestPingStrategy, pool.FirstWorkingConnect
 func implUpdateBest(strat int, cs []mc, prev int) int {
 	conns := make([]pool.VerifConn, len(cs))
 	for i, c := range cs {
-		conns[i] = &mconn{idx: i, alive: c.alive, seqno: c.seqno, rtt: time.Duration(c.rtt)}
+		conns[i] = &mconn{idx: i, alive: c.alive, seqno: c.seqno, seqno2: c.second(), rtt: time.Duration(c.rtt)}
 	}
 	var best pool.VerifConn
 	if prev >= 0 && prev < len(conns) {
@@ -104,6 +125,8 @@ func specUpdateBest(strat int, cs []mc, prev int) int {
 	if strat > 1 || len(cs) == 0 {
 		return prev
 	}
+	// the newest head known when the refresh starts; a head that rises while the refresh
+	// runs (second()) keeps its connection current
 	var newest uint64
 	for _, c := range cs {
 		if uint64(c.seqno) > newest {
@@ -112,7 +135,7 @@ func specUpdateBest(strat int, cs []mc, prev int) int {
 	}
 	choice := -1
 	for i, c := range cs {
-		if !c.alive || newest-uint64(c.seqno) > 1 {
+		if !c.alive || uint64(c.second())+1 < newest {
 			continue
 		}
 		if choice < 0 {
@@ -135,7 +158,11 @@ func specUpdateBest(strat int, cs []mc, prev int) int {
 func parseMcs(v sx.V) []mc {
 	cs := make([]mc, len(v.List))
 	for i, x := range v.List {
-		cs[i] = mc{alive: x.List[0].Bool, seqno: uint32(x.List[1].U64()), rtt: x.List[2].Int.Int64()}
+		if len(x.List) == 4 {
+			cs[i] = mc{alive: x.List[0].Bool, seqno: uint32(x.List[1].U64()), rising: true, seqno2: uint32(x.List[2].U64()), rtt: x.List[3].Int.Int64()}
+		} else {
+			cs[i] = mc{alive: x.List[0].Bool, seqno: uint32(x.List[1].U64()), rtt: x.List[2].Int.Int64()}
+		}
 	}
 	return cs
 }
@@ -165,7 +192,7 @@ func gridConns() []mc {
 	for _, al := range []bool{true, false} {
 		for _, sq := range gridSeqnos {
 			for _, r := range gridRtts {
-				out = append(out, mc{al, sq, r})
+				out = append(out, mc{alive: al, seqno: sq, rtt: r})
 			}
 		}
 	}
@@ -243,7 +270,16 @@ func ubClass(strat int, cs []mc) string {
 	if newest >= 0xfffffffe {
 		hi = "hi"
 	}
-	return fmt.Sprintf("ub|n%d|s%d|elig%s|%s", minInt(len(cs), 5), strat, eb, hi)
+	kind := "ub"
+	for _, c := range cs {
+		if c.rising && c.seqno2 > c.seqno {
+			kind = "ub-rising"
+			if uint64(c.seqno2) > newest {
+				kind = "ub-rising-above-max"
+			}
+		}
+	}
+	return fmt.Sprintf("%s|n%d|s%d|elig%s|%s", kind, minInt(len(cs), 5), strat, eb, hi)
 }
 
 func (f *c13Fails) emitUB(strat int, cs []mc, prev int) {
@@ -256,8 +292,8 @@ func genC13UB(c *Ctx, f *c13Fails) {
 	grid := gridConns()
 	// the witness of the repaired seqno-wrap defect first (so that it is the recorded input
 	// should the defect come back)
-	f.emitUB(0, []mc{{true, 0xffffffff, 1}}, -1)
-	f.emitUB(1, []mc{{true, 0xffffffff, 1}}, -1)
+	f.emitUB(0, []mc{{alive: true, seqno: 0xffffffff, rtt: 1}}, -1)
+	f.emitUB(1, []mc{{alive: true, seqno: 0xffffffff, rtt: 1}}, -1)
 	// empty pool
 	for strat := 0; strat < 3; strat++ {
 		f.emitUB(strat, nil, -1)
@@ -316,8 +352,61 @@ func genC13UB(c *Ctx, f *c13Fails) {
 		}
 		f.emitUB(r.Intn(3), cs, r.Intn(n+1)-1)
 	}
+	// heads that rise while the refresh runs (updateBest reads every head twice holding only the
+	// pool lock): the mock's MasterHead() answers seqno on the first call and a higher one later.
+	// exhaustive n = 1, 2 over alive x seqno {0,1,2,fffffffe} x rise {0,1,2} x rtt {1,2}, sampled n = 3, 4
+	rises := func(c mc, d uint32) mc {
+		c.rising, c.seqno2 = true, c.seqno+d
+		if c.seqno2 < c.seqno { // no head beyond 2^32-1
+			c.seqno2 = 0xffffffff
+		}
+		return c
+	}
+	var rgrid []mc
+	for _, al := range []bool{true, false} {
+		for _, sq := range []uint32{0, 1, 2, 0xfffffffe} {
+			for _, d := range []uint32{0, 1, 2} {
+				for _, rt := range []int64{1, 2} {
+					rgrid = append(rgrid, rises(mc{alive: al, seqno: sq, rtt: rt}, d))
+				}
+			}
+		}
+	}
+	// the witness first: dead previous choice, the only alive connection gets the next block
+	f.emitUB(0, []mc{{alive: false, seqno: 100, rtt: 1}, rises(mc{alive: true, seqno: 100, rtt: 2}, 1)}, 0)
+	f.emitUB(1, []mc{{alive: false, seqno: 100, rtt: 1}, rises(mc{alive: true, seqno: 100, rtt: 2}, 1)}, 0)
+	f.emitUB(0, []mc{{alive: true, seqno: 100, rtt: 30}, rises(mc{alive: true, seqno: 100, rtt: 2}, 1), {alive: true, seqno: 100, rtt: 20}}, 0)
+	for strat := 0; strat < 2; strat++ {
+		for _, a := range rgrid {
+			for prev := -1; prev < 1; prev++ {
+				f.emitUB(strat, []mc{a}, prev)
+			}
+		}
+	}
+	nR2 := c.Scale(2500, 30000)
+	for i := 0; i < nR2; i++ {
+		n := 2 + r.Intn(3)
+		cs := make([]mc, n)
+		for j := range cs {
+			cs[j] = rgrid[r.Intn(len(rgrid))]
+			if r.Chance(40) {
+				cs[j].rising, cs[j].seqno2 = false, 0
+			}
+		}
+		f.emitUB(r.Intn(2), cs, r.Intn(n+1)-1)
+	}
 	if !c.Thorough() {
 		return
+	}
+	// thorough: rising heads, n = 2 exhaustively
+	for strat := 0; strat < 2; strat++ {
+		for _, a := range rgrid {
+			for _, b := range rgrid {
+				for prev := -1; prev < 2; prev++ {
+					f.emitUB(strat, []mc{a, b}, prev)
+				}
+			}
+		}
 	}
 	// thorough: the whole grid, n = 1..4, both strategies, every previous choice
 	var rec func(pre []mc, depth int)
@@ -480,7 +569,7 @@ func genC13Add(c *Ctx, f *c13Fails) {
 		for _, arrival := range permutations(sub) {
 			for strat := 0; strat < 2; strat++ {
 				// everybody alive and at the newest head
-				obs := []mc{{true, 100, 4}, {true, 100, 3}, {true, 100, 2}, {true, 100, 1}}
+				obs := []mc{{alive: true, seqno: 100, rtt: 4}, {alive: true, seqno: 100, rtt: 3}, {alive: true, seqno: 100, rtt: 2}, {alive: true, seqno: 100, rtt: 1}}
 				emit(strat, arrival, obs)
 				for j := 0; j < k; j++ {
 					obs := make([]mc, 4)
